@@ -170,6 +170,18 @@ class VObj(Value):
 
 
 @dataclass
+class VConstDict(Value):
+    """a dictionary whose keys are literals (None, strings, integers, booleans): a dispatch or code table"""
+    items: list            # [(python key, Value)] in insertion order
+
+    def lookup(self, key):
+        for k, v in self.items:
+            if type(k) is type(key) and k == key:
+                return v
+        return None
+
+
+@dataclass
 class VRecordType(Value):
     """a collections.namedtuple class bound at module level: calling it builds a record (a VObj whose attributes are the fields, in order)"""
     name: str
